@@ -622,7 +622,54 @@ func c09Effects(c *Ctx, g *load.G) {
 			return true
 		})
 		ok := kept["chars"] && kept["ranges"] && kept["unicodeClasses"] && installs["chr.Chars"] && installs["chr.Ranges"] && installs["chr.UnicodeClasses"]
-		r.Check(ok, "C09-f", "G.ast.cleanupCharClassMatcher:keeps-every-distinct-member", "", g.Where(cf.Pos()), "each of the three lists is rebuilt by appending every not-yet-seen member", fmt.Sprintf("rebuilt lists %v, installed %v: members of a merged class are lost", keysOf(kept), keysOf(installs)))
+		// what is appended is the member itself: the loop element for chars and classes, the pair (Ranges[i], Ranges[i+1])
+		// for ranges; the duplicate key of a pair is built from the same two runes; the regenerated text renders the same pair
+		var badApp []string
+		ast.Inspect(cf.Body, func(n ast.Node) bool {
+			switch x := n.(type) {
+			case *ast.RangeStmt:
+				if x.Value == nil {
+					return true
+				}
+				v := nospace(x.Value)
+				for _, ce := range callsIn(x.Body) {
+					if callName(ce) == "append" && len(ce.Args) >= 2 && kept[nospace(ce.Args[0])] {
+						if len(ce.Args) != 2 || nospace(ce.Args[1]) != v {
+							badApp = append(badApp, g.Where(ce.Pos())+": appends "+nospace(ce)+" for member "+v)
+						}
+					}
+				}
+			case *ast.ForStmt:
+				if x.Cond == nil || !strings.Contains(nospace(x.Cond), "len(chr.Ranges)") {
+					return true
+				}
+				for _, ce := range callsIn(x.Body) {
+					switch {
+					case callName(ce) == "append" && len(ce.Args) >= 2 && kept[nospace(ce.Args[0])]:
+						if len(ce.Args) != 3 || nospace(ce.Args[1]) != "chr.Ranges[i]" || nospace(ce.Args[2]) != "chr.Ranges[i+1]" {
+							badApp = append(badApp, g.Where(ce.Pos())+": the kept pair is "+nospace(ce)+", expected (chr.Ranges[i], chr.Ranges[i+1])")
+						}
+					}
+				}
+				// texts built from the pair mention both ends, low before high
+				var ends []string
+				ast.Inspect(x.Body, func(m ast.Node) bool {
+					if ix, ok := m.(*ast.IndexExpr); ok && nospace(ix.X) == "chr.Ranges" {
+						ends = append(ends, nospace(ix.Index))
+					}
+					return true
+				})
+				js := strings.Join(ends, ",")
+				if !(js == "i,i+1" || js == "i,i+1,i,i+1") {
+					badApp = append(badApp, g.Where(x.Pos())+": the loop over the range pairs reads Ranges["+js+"], expected the low end i and then the high end i+1 each time a pair is used")
+				}
+			}
+			return true
+		})
+		if len(badApp) > 0 {
+			ok = false
+		}
+		r.Check(ok, "C09-f", "G.ast.cleanupCharClassMatcher:keeps-every-distinct-member", "", g.Where(cf.Pos()), "each of the three lists is rebuilt by appending every not-yet-seen member", fmt.Sprintf("rebuilt lists %v, installed %v %s: members of a merged class are lost or altered", keysOf(kept), keysOf(installs), strings.Join(badApp, "; ")))
 	}
 }
 
